@@ -109,7 +109,21 @@ type Components struct {
 
 var checks = map[string]*Check{}
 
-func register(c *Check) { checks[c.ID] = c }
+func register(c *Check) {
+	if raceMode {
+		// the race-detector build of the same simulator: every verdict also carries what the detector reported while the
+		// plan ran (reports cannot be minimised in-process: the detector tells each race once per process)
+		orig := c.Oracle
+		c.Oracle = func(p *Plan) *Verdict {
+			v := orig(p)
+			raceAugment(v)
+			return v
+		}
+		c.NoShrink = true
+		c.UnstableHash = true
+	}
+	checks[c.ID] = c
+}
 
 var stdComponents = Components{
 	Real: []string{"connectrpc.com/vanguard (all of transcoder.go, protocol_*.go, router.go, params.go, codec.go, compression.go, buffers.go, type_resolver.go, vanguard.go) built from /repo with -tags verif",
